@@ -293,8 +293,29 @@ func c14Helpers(rc *RuleCtx) {
 				}
 			}
 		})
-		if nStat == 0 && name != "IsEmpty" {
+		if nStat == 0 {
 			bad = "the helper does not Stat its path"
+		}
+		if name == "IsEmpty" {
+			// a file is never opened: OpenFile is reached only where Stat said the path is a directory
+			eachCall(f, func(ci ssa.CallInstruction) {
+				fn := calleeFunc(ci)
+				if fn == nil || fn.Name() != "OpenFile" || !ci.Common().IsInvoke() || ci.Common().Value != ssa.Value(f.Params[0]) {
+					return
+				}
+				isDir := false
+				for _, fa := range factsAt(ci.Block()) {
+					c, truth := normCond(fa.Cond, fa.Truth)
+					if ic, _ := resultOfCall(c); ic != nil && truth {
+						if ifn := calleeFunc(ic); ifn != nil && ifn.Name() == "IsDir" {
+							isDir = true
+						}
+					}
+				}
+				if !isDir {
+					bad = "IsEmpty opens its path without having established, from Stat, that it is a directory: a file the caller may stat but not read makes the helper fail where Stat and the size answer the question"
+				}
+			})
 		}
 		// not-exist mapped to (false, nil) only in Exists / DirExists
 		mapsNotExist := false
